@@ -28,6 +28,12 @@ func verifDigits(name string, max int) (string, uint64) {
 // harness chose; natively the real parser sees the string built from them.)
 func Verif_C14_SemverSplit() {
 	maj, majN := verifDigits("maj", 2)
+	switch v.NondetChoice("maj.huge", 3) { // components are 64-bit unsigned numbers
+	case 1:
+		maj, majN = "9223372036854775808", 9223372036854775808
+	case 2:
+		maj, majN = "18446744073709551615", 18446744073709551615
+	}
 	min, minN := verifDigits("min", 2)
 	pat, patN := verifDigits("pat", 1)
 	pre := v.NondetStringRange("pre", 0, 3)
